@@ -67,7 +67,12 @@ def configs(tier, seed):
     # found from both adjacent pieces and must still be reported once
     cfgs.append(dict(name="crossing at a vertex, dy=0", kind="translate", floats=True, fixed=["dy", "0"],
                      VA=[["0", "0"], ["1.3", "2.1"], ["2.9", "3.7"]], KA=["0", "1", "2"],
-                     VB=[["-0.5", "2.1"], ["3.1", "2.1"]], KB=["0", "1"], dxrange=["-1/2", "1/2"]))
+                     VB=[["-0.5", "2.1"], ["3.1", "2.1"]], KB=["0", "1"], dxrange=["-1/2", "1/2"], vertex=True))
+    # a self-crossing polyline whose double point lies on the segment for every value of the translation: two crossings
+    # share the parameter on B and must both be returned
+    cfgs.append(dict(name="double point of A on B, dy=0", kind="translate", floats=True, fixed=["dy", "0"],
+                     VA=[["0", "0"], ["2", "2"], ["2", "0"], ["0", "2"]], KA=["0", "1", "2", "3"],
+                     VB=[["-1", "1"], ["3", "1"]], KB=["0", "1"], dxrange=["-1/4", "1/4"]))
     cfgs.append(dict(name="bounding boxes never reject crossing segments", kind="box"))
     return cfgs
 
@@ -161,7 +166,7 @@ def body(env, cfg):
                 found = found | ((e1 <= tol) & (-e1 <= tol) & (e2 <= tol) & (-e2 <= tol))
             env.holds(f"the transversal crossing of segment {i} of A and segment {j} of B is returned with its parameters",
                       (~inside) | found if env.sym else (not bool(inside)) or bool(found))
-    if "dxrange" in cfg:
+    if cfg.get("vertex"):
         # the crossing at the vertex (1.3, 2.1) of A, parameter 1 on A, must be reported exactly once
         ustar = (F(13, 10) - (F(-1, 2) + dx)) / F(36, 10)
         hits = 0
